@@ -181,7 +181,10 @@ class LabelProbabilityInjector(Injector):
         if len(sample_idxs_grouped) > 0:
             # if classes skipped, ensure probability distribution adds to 1
             p_leftover = (1 - sum(self._p_distribution)) / len(self._p_distribution)
-            self._p_distribution = [p + p_leftover for p in self._p_distribution]
+            # (rounding in the sum can make the leftover slightly negative)
+            self._p_distribution = [
+                max(p + p_leftover, 0.0) for p in self._p_distribution
+            ]
 
             # shuffled sample over window, with replacement, with weights
             sample_idxs = np.random.choice(
